@@ -10,6 +10,8 @@ Decided (structural):
  * what is projected (K3): every variable of the goal is projected with walk*(state.smap, .) of the
    *incoming* state and the body is solved with that same state.
 Expected on this tree: the first two fail at Project::solve -> LTerm::project (finding F4).
+ (round 4, shared with C20) walk* of compound values: the library impls for pairs / Option and
+   the derive templates walk every field, each field itself, deeply, in the same substitution.
 """
 import C23 as panics
 import hirwalk
@@ -43,6 +45,17 @@ def run(ctx, fb, cfg):
     import C15
 
     C15.check_unfolding(C15._Prefixed(ctx, "C11"), lib)
+    # walk* of a compound value (pair, Option, #[compound] struct) walks *every* field in the same
+    # substitution, deeply: the library impls and the derive templates (shared with C20)
+    import C20
+
+    C20.check_library(C15._Prefixed(ctx, "C11"), lib)
+    if cfg == "lib-default":
+        import macrolib
+
+        S = macrolib.load_sem(ctx, fb)
+        if S is not None:
+            C20.check_derive(C15._Prefixed(ctx, "C11"), S)
     edges, bodies = panics.call_graph(lib)
     bd = mutaudit.backdoors(lib)
     unsafe_fns = set(bd)
